@@ -256,10 +256,15 @@ def run_case(case):
             check_factor(out, op, res, set(sub), sizes, agg(fn_list, sub), ordered=sub, rtol=1e-11, atol=1e-12 * max(1.0, case['va']['scale']))
         elif op == 'condition':
             ev = {k: int(v) for k, v in case['ev'].items()}
+            foreign = [x for x in attrs if x not in a]
+            if foreign and case['cv_seed'] % 3 == 0:
+                # evidence may mention attributes the factor does not have (they are simply not its business)
+                ev = dict([(foreign[0], sizes[foreign[0]] - 1)] + list(ev.items()) + ([(foreign[-1], 0)] if len(foreign) > 1 else []))
+                out.classes.append('foreign_evidence_keys')
             restc = [x for x in a if x not in ev]
             res = fa.condition(ev)
             def f(s):
-                t = dict(s); t.update(ev); return A(t)
+                t = dict(s); t.update({k: v for k, v in ev.items() if k in a}); return A(t)
             check_factor(out, op, res, set(restc), sizes, f, ordered=restc)
             out.nontrivial = len(a) >= 2 and 0 < len(ev) and list(ev.keys()) != [x for x in a if x in ev]
         elif op == 'transpose':
